@@ -170,7 +170,7 @@ pub fn cells() -> Vec<Cell> {
         out.push(Cell::EmptyList { subscribe: false, state });
     }
     for op in 0..5u8 {
-        for death in 0..7u8 {
+        for death in 0..8u8 {
             out.push(Cell::DeadHandle { op, idle: false, death });
             out.push(Cell::DeadHandle { op, idle: true, death });
         }
@@ -297,8 +297,9 @@ pub fn case_of(cell: &Cell) -> Case {
                 ]),
                 4 => steps.push(Step::Disconnect { reason: None, props: None, cancel: None }),
                 5 => steps.extend([Step::FaultAt { delta: 0, eof: false }, Step::Publish(PubSpec::simple(0, 3, 4, 7))]),
-                // the write is accepted, the flush fails
-                _ => steps.extend([Step::FaultAt { delta: 1, eof: false }, Step::Publish(PubSpec::simple(0, 3, 4, 7))]),
+                // the write is accepted, the flush fails (QoS 0: direct write path; QoS 1: queued packet)
+                6 => steps.extend([Step::FaultAt { delta: 1, eof: false }, Step::Publish(PubSpec::simple(0, 3, 4, 7))]),
+                _ => steps.extend([Step::FaultAt { delta: 1, eof: false }, Step::Publish(PubSpec::simple(1, 3, 4, 7))]),
             }
             let base_cfg = if *death == 3 { Cfg { keepalive: 2, ..base_cfg } } else { base_cfg };
             steps.push(match op {
